@@ -239,6 +239,89 @@ for cell, res in zip(cells, results):
     if len(samples) < 3:
         samples.append({'listener': l, 'connector': c, 'destination': dk, 'datagrams': [(w, s, v) for w, s, v, _ in res][:4]})
 
+# ---- the largest payloads: what the client can send at most, and every size below it that is near a 16-bit boundary
+#      of a carrier (an inline frame is 12 bytes of header + the address attribute + the body; a SOCKS5 datagram has its
+#      own header). The echo reply is one byte longer than the request, so the request stops one short of what the
+#      narrowest carrier on the path takes (beyond that a datagram cannot be delivered by any implementation).
+def max_payload(listener, dk, connector='direct'):
+    """the largest request such that request and reply (one byte longer) fit every carrier on the path"""
+    socks_hdr = {'ipv4': 10, 'ipv6': 22, 'domain': 7 + len('localhost')}[dk]
+    limits = [65527 if dk == 'ipv6' else 65507]                      # last hop -> destination (localhost resolves to 127.0.0.1)
+    limits.append({'reverse': 65507, 'socks5': 65507 - socks_hdr, 'http-inline': 65535}[listener])   # client <-> first hop
+    if connector == 'socks5':
+        limits.append(65507 - socks_hdr)                            # first hop <-> second hop as SOCKS5 UDP over IPv4
+    elif connector in ('http-inline', 'quic-inline', 'quic-datagrams'):
+        limits.append(65535)                                        # frame body length is 16 bits
+    return min(limits) - 1
+def run_max(cell):
+    l, c, dk, dh = cell
+    top = max_payload(l, dk, c)
+    sizes = list(range(top - 60, top + 1)) if tier() == 'thorough' else sorted({top, top - 1, 65505, 65504, 65500, 65490} & set(range(0, top + 1)) | {top})
+    out = []
+    try:
+        s = Session(l, c, dk, dh)
+    except Exception as e:
+        return [(None, 'setup-failed', repr(e))]
+    try:
+        hello = tagged(40, f'max-hello-{l}/{c}/{dk}')
+        r, _ = s.send(hello)
+        if r is None:
+            return [(40, 'first-datagram-lost', '')]
+        peers = origin.peers_of(hello)
+        for size in sizes:
+            p = tagged(size, f'max-{l}/{c}/{dk}')
+            try:
+                reply, label = s.send(p, 4.0)
+            except OSError as e:
+                out.append((size, 'association-died', repr(e)))
+                break
+            if reply is None:
+                # many fragments / packets: once more before judging
+                p = tagged(size, f'max-{l}/{c}/{dk}-retry')
+                try:
+                    reply, label = s.send(p, 5.0)
+                except OSError as e:
+                    out.append((size, 'association-died', repr(e)))
+                    break
+                retried[0] += 1
+            arrived = origin.count(p, peers)
+            if reply is None:
+                out.append((size, 'datagram-lost' if arrived == 0 else 'no-reply', f'arrived={arrived}'))
+                # is the session still usable?
+                q = tagged(7, f'max-after-{l}/{c}/{dk}')
+                try:
+                    r2, _ = s.send(q, 3.0)
+                except OSError:
+                    r2 = None
+                if r2 is None:
+                    out.append((7, 'session-dead-after-large-datagram', f'after {size} bytes'))
+                    break
+            elif reply != b'R' + p:
+                out.append((size, 'payload-corrupted', f'{len(reply)} bytes back'))
+            elif arrived != 1:
+                out.append((size, f'delivered-{arrived}-times', ''))
+            else:
+                out.append((size, 'ok', ''))
+    finally:
+        s.close()
+    return out
+
+max_cells = [(l, c, dk, dh) for l in LISTENERS for c in CONNECTORS for dk, dh in DSTS if not (dk == 'ipv6' and (l != 'reverse'))] + \
+            [('http-inline', c, 'ipv6', '::1') for c in ('direct', 'http-inline', 'quic-inline')]
+for cell, res in zip(max_cells, run_parallel(max_cells, run_max, workers=6)):
+    l, c, dk, dh = cell
+    if isinstance(res, tuple):
+        machinery(f'max {cell}: {res}')
+    for size, verdict, detail in res:
+        evals += 1
+        distinct.add(('max', l, c, verdict))
+        if verdict == 'ok':
+            continue
+        if dk == 'ipv6' and verdict == 'first-datagram-lost':   # the path does not carry IPv6 destinations at all (known finding for some paths)
+            chk.violation(f'udp.{l}->{c}', 'ipv6-destination:datagram-lost', f'{l} -> {c} -> ipv6: datagram of {size} bytes: {verdict} ({detail})', {'listener': l, 'connector': c, 'destination': dk, 'size': size})
+        else:
+            chk.violation(f'udp.{l}->{c}', f'{verdict}:largest-payloads', f'{l} -> {c} -> {dk}: a datagram of {size} bytes (the path carries {max_payload(l, dk, c)}): {verdict} {detail}', {'listener': l, 'connector': c, 'destination': dk, 'size': size})
+
 # ---- several destinations inside ONE association: every datagram names its own destination (SOCKS5 UDP associate;
 #      CONNECT 0.0.0.0:0 with Proxy-Protocol: udp), so nothing may be remembered from one datagram to the next:
 #      all ordered triples over {localhost:O1, localhost:O2, 127.0.0.1:O1, 127.0.0.1:O2} (a de Bruijn sequence on one
@@ -632,6 +715,6 @@ origin.stop()
 if evals < 100 or len(distinct) < 10:
     machinery(f'vacuous: evals={evals} distinct={len(distinct)}')
 cov = {'evaluations': evals, 'distinct_nontrivial': len(distinct), 'transitions': evals, 'traces_validated_against_impl': evals,
-       'rule': 'real binaries (two hops): UDP listener {socks5 associate, reverse udp, http CONNECT+Proxy-Protocol: udp inline} x connector {direct, socks5, http inline, quic inline, quic datagrams} x destination {ipv4, ipv6, domain} (quick: rotation) x payload sizes x first/later datagram, lock-step with a tagging echo origin; 3 concurrent sessions x 4 rounds per listener x connector; a destination that goes away and comes back on its port (the pending receive error must not reach the client as a datagram); a storm of new sessions on the reverse listener (8 x 80 clients sending their first datagram 0.4 ms apart; no client may get an answer meant for another client); per-datagram destinations inside one association: all ordered triples over {localhost, 127.0.0.1} x {two origins} as a de Bruijn sequence plus all ordered pairs on fresh associations, for socks5 and CONNECT 0.0.0.0:0 x every connector; closed client port per connector',
+       'rule': 'real binaries (two hops): UDP listener {socks5 associate, reverse udp, http CONNECT+Proxy-Protocol: udp inline} x connector {direct, socks5, http inline, quic inline, quic datagrams} x destination {ipv4, ipv6, domain} (quick: rotation) x payload sizes x first/later datagram, lock-step with a tagging echo origin; the largest payloads the client can send per listener and destination kind and sizes around 65505 (thorough: the 60 sizes below the maximum) for every listener x connector; 3 concurrent sessions x 4 rounds per listener x connector; a destination that goes away and comes back on its port (the pending receive error must not reach the client as a datagram); a storm of new sessions on the reverse listener (8 x 80 clients sending their first datagram 0.4 ms apart; no client may get an answer meant for another client); per-datagram destinations inside one association: all ordered triples over {localhost, 127.0.0.1} x {two origins} as a de Bruijn sequence plus all ordered pairs on fresh associations, for socks5 and CONNECT 0.0.0.0:0 x every connector; closed client port per connector',
        'cells': len(cells), 'sizes': SIZES, 'deadline_verdicts_rerun': retried[0], 'schedule_control': 'kernel', 'samples': samples}
 sys.exit(chk.finish('exploration', cov, ['loopback, lock-step (send one datagram, await its echo with a 3 s deadline): absent network loss holds', 'TPROXY UDP and the QUIC listener as first hop (needs a QUIC client) are not driven directly: QUIC paths are covered as second hop'], merge=False))
